@@ -24,6 +24,12 @@
 EXTENDS ZoneFile
 
 WriterDevs == {"D_label_escape_set", "D_display_root_dot"}
+\* the token route's reader (base::scan::IterScanner):
+\*   D_iterscanner_marker  IterScanner::scan_opt_unknown_marker only peeks at the
+\*                         "\#" token and leaves it in place; ZoneRecordData::scan
+\*                         then reads it as the RFC 3597 length: the generic form
+\*                         cannot be read through an IterScanner at all
+TokenDevs == {"D_iterscanner_marker"}
 
 B16 == INSTANCE BaseN WITH Dev <- {}
 
@@ -171,11 +177,13 @@ ReadCfg(text, cfg, rdv) ==
 \* class ends the reading with an error, the records before it are returned.
 RECURSIVE FirstOtherClass(_, _, _)
 FirstOtherClass(rs, c, i) == IF i > Len(rs) THEN 0 ELSE IF rs[i].class # c THEN i ELSE FirstOtherClass(rs, c, i + 1)
-ExpectedZone(rs, cfg) ==
-  LET k == IF cfg.allow \/ rs = <<>> THEN 0
-           ELSE FirstOtherClass(rs, IF cfg.dclass # -1 THEN cfg.dclass ELSE rs[1].class, 1)
-      n == IF k = 0 THEN Len(rs) ELSE k - 1
-  IN [entries |-> [i \in 1..n |-> AsEntry(rs[i])], err |-> k # 0]
+\* on records as the reader reports them (entries)
+ExpectedEntries(es, cfg) ==
+  LET k == IF cfg.allow \/ es = <<>> THEN 0
+           ELSE FirstOtherClass(es, IF cfg.dclass # -1 THEN cfg.dclass ELSE es[1].class, 1)
+      n == IF k = 0 THEN Len(es) ELSE k - 1
+  IN [entries |-> SubSeq(es, 1, n), err |-> k # 0]
+ExpectedZone(rs, cfg) == ExpectedEntries([i \in 1..Len(rs) |-> AsEntry(rs[i])], cfg)
 
 ZoneRoundTrip(rs, ks, mode, cfg, dv) == ReadCfg(WZone(rs, ks, mode, dv), cfg, {}) = ExpectedZone(rs, cfg)
 
@@ -209,13 +217,15 @@ RdTokens(rd, kind, dv) ==
 
 \* reading them: the record-data scanners of ZoneFile.tla on the symbols
 \* (no origin: the token route knows absolute names only)
-ReadTokens(rtype, toks) ==
+ReadTokens(rtype, toks, dv) ==
   LET sy == [i \in 1..Len(toks) |-> SymsOf(toks[i].t)]
       items == [i \in 1..Len(toks) |-> [k |-> "tok", q |-> toks[i].q, sp |-> TRUE, syms |-> sy[i].syms, p0 |-> 0, nx |-> SP]]
   IN IF \E i \in 1..Len(toks) : ~sy[i].ok THEN [err |-> TRUE]
+     ELSE IF "D_iterscanner_marker" \in dv /\ Len(items) >= 1 /\ IsMarker(items[1]) THEN [err |-> TRUE]
      ELSE LET r == Rdata(rtype, items, 1, "lf", <<>>, {})
           IN IF r.r = "ok" THEN [rd |-> r.rd] ELSE [err |-> TRUE]
-TokenRoundTrip(r, kind, dv) == ReadTokens(r.rd.t, RdTokens(r.rd, kind, dv)) = [rd |-> RdWire(r.rd)]
+TokenRoundTrip(r, kind, dv) ==
+  ReadTokens(r.rd.t, RdTokens(r.rd, kind, dv \cap WriterDevs), dv \cap TokenDevs) = [rd |-> RdWire(r.rd)]
 
 \* ======================================================================
 \* Field texts on their own: Display for Label / OwnedLabel read by
